@@ -46,12 +46,22 @@ def real_recover(case, sig_rs=None):
     sig = E.ref_encode(case["dec"], sig_rs[0], sig_rs[1], n) if sig_rs else E.sig_unjson(case["sig"])
     dec = E.decoder(case["dec"])
     H = E.HASHES[case.get("hash", "sha1")]
+    sig = E.wrap_sig(sig, case.get("sigcontainer"))
+    fl = E.flag_obj(case)
+    pos = case.get("call") == "positional"
     if kind == "recover_digest":
-        vks = VerifyingKey.from_public_key_recovery_with_digest(sig, E.digest_obj(case), cv, hashfunc=H, sigdecode=dec,
-                                                               allow_truncate=case["allow_truncate"])
+        # documented order: from_public_key_recovery_with_digest(signature, digest, curve, hashfunc=sha1, sigdecode=sigdecode_string,
+        #                                                        allow_truncate=False)
+        if pos:
+            vks = VerifyingKey.from_public_key_recovery_with_digest(sig, E.digest_obj(case), cv, H, dec, fl)
+        else:
+            vks = VerifyingKey.from_public_key_recovery_with_digest(sig, E.digest_obj(case), cv, hashfunc=H, sigdecode=dec, allow_truncate=fl)
     else:
-        vks = VerifyingKey.from_public_key_recovery(sig, bytes.fromhex(case["data"]), cv, hashfunc=H, sigdecode=dec,
-                                                    allow_truncate=case["allow_truncate"])
+        # documented order: from_public_key_recovery(signature, data, curve, hashfunc=sha1, sigdecode=sigdecode_string, allow_truncate=True)
+        if pos:
+            vks = VerifyingKey.from_public_key_recovery(sig, bytes.fromhex(case["data"]), cv, H, dec, fl)
+        else:
+            vks = VerifyingKey.from_public_key_recovery(sig, bytes.fromhex(case["data"]), cv, hashfunc=H, sigdecode=dec, allow_truncate=fl)
     return [(int(v.pubkey.point.x()), int(v.pubkey.point.y())) for v in vks], vks
 
 
@@ -283,7 +293,12 @@ def all_cases(ctx):
         honest += honest_cases(rng, E.curve_spec(cv), (2 if lvl == "small" else 1) if q else (30 if lvl == "small" else 14), lvl)
         forged += forged_cases(rng, E.curve_spec(cv), 1 if q else (20 if lvl == "small" else 10), lvl)
     # the digest wrapper on non-bytes bytes-like digests
-    honest += E.container_variants(rng, [x for x in honest if x[1].get("kind") == "recover_digest"], 0.3)
+    wr = [x for x in honest if x[1].get("kind") in ("recover_digest", "recover_data")]
+    honest += E.container_variants(rng, [x for x in wr if x[1]["kind"] == "recover_digest"], 0.3)
+    # positional calls (documented parameter order), non-bool truncation flags, signature in a non-bytes container
+    honest += [(tag + " [positional]", dict(case, call="positional")) for tag, case in wr if rng.random() < 0.3]
+    honest += E.flag_variants(rng, wr, 0.2)
+    honest += E.container_variants(rng, [x for x in wr if "sig" in x[1]], 0.2, field="sigcontainer", needs="dec", what="signature")
     ctx._c14_cases = (honest, forged)
     return ctx._c14_cases
 
@@ -307,7 +322,7 @@ def correspond(ctx):
                 continue
             cv, cp, t = E.resolve_curve(case["curve"])
             line, th = corr_line(case)
-            c[case["kind"]].add(line, th, tag, 5e-5 if t is not None else E.linecost(cv, True, 2), key=case.get("container"))
+            c[case["kind"]].add(line, th, tag, 5e-5 if t is not None else E.linecost(cv, True, 2), key=(case.get("container"), case.get("sigcontainer"), case.get("call"), case.get("flag")))
         # toy curves: the full product of small (r, s, e) through recover_public_keys
         for t in [x for x in E.get_fixed_toys() if x.n <= 11][:2] + E.pick_toys(rng, 1, nmax=11):
             n = t.n
